@@ -321,9 +321,17 @@ def embedded_refs(inner, k):
     return bytes([0x02, 0x9F, 0x53, 0x6A]) + _mb(len(tbl)) + tbl + body
 
 
+def cubic_doc(k):
+    """the cubic family of C01c_ex_cubic: k references to a NUL-free embedded document that holds k references to a string of
+    k bytes: about 3.5 k + 70 bytes, more than k^3 bytes of XML"""
+    tbl = b"y" * (k + 1)
+    inner = bytes([0x02, 0x9F, 0x53, 0x6A]) + _mb(len(tbl)) + tbl + bytes([0x54]) + bytes([0x83, 0x01]) * k + bytes([0x01])
+    return embedded_refs(inner, k)
+
+
 def embedded_cases(seed, n_levels=3):
     rng = Rng(seed, 77)
-    cases = []
+    cases = [raw_case(cubic_doc(k), "embedded-cubic", root_end=0) for k in (4, 8, 16, 24)]
     for d in (0, 1, 2, 3, 5, 8, 13, 21):
         cases.append(raw_case(embedded_chain(d), "embedded-chain", root_end=0))
         cases.append(raw_case(embedded_chain(d, leaf=bytes([0x02, 0x9F, 0x53, 0x6A, 0x00, 0x14])), "embedded-chain", root_end=0))
